@@ -373,10 +373,13 @@ def run(ctx):
             B[:, zc] = 0
         lowprec += 1
         try:
+            x_in = None if X0 is None else X0.copy()
             with np.errstate(all="ignore"):
-                x, _ = cg(cola.PSD(Dense(A)), B, x0=None if X0 is None else X0.copy(), tol=1e-5, max_iters=4 * n + 4)
+                x, _ = cg(cola.PSD(Dense(A)), B, x0=x_in, tol=1e-5, max_iters=4 * n + 4)
             x = np.asarray(x)
             badl = []
+            if x_in is not None and not (x_in.dtype == X0.dtype and np.array_equal(x_in, X0)):
+                badl.append("the caller's x0 array was modified by cg")
             if not np.all(np.isfinite(x)):
                 badl.append("non-finite solution in %s" % np.dtype(dt).name)
             elif zc >= 0 and np.any(x[:, zc] != 0):
@@ -394,6 +397,35 @@ def run(ctx):
         if badl:
             mism.append(dict(oracle_fail=True, case=dict(A=core_json(A.tolist()), B=core_json(B.tolist()), X0=None if X0 is None else core_json(X0.tolist()), dtype=np.dtype(dt).name),
                              failed_clauses=badl, model_disagrees=False))
+    # one CG(x0=...) object (and the lazy inverse built from it) used for two right-hand sides: the stored guess must survive
+    reuse = 0
+    if x0vec_ok:
+        for _ in range(ctx.budget(30, 200)):
+            n = int(rs.integers(2, 10))
+            cplx = bool(rs.random() < 0.4)
+            A = L.make_spd(rs, n, cplx, float(10 ** rs.uniform(0, 1.5)), "uniform")
+            mk = lambda: (rs.normal(size=n) + (1j * rs.normal(size=n) if cplx else 0)).astype(A.dtype)
+            x0, b1, b2 = mk(), mk(), mk()
+            keep = x0.copy()
+            alg = cola.linalg.CG(x0=x0, tol=1e-10, max_iters=4 * n)
+            reuse += 1
+            try:
+                if rs.random() < 0.5:
+                    y1, y2 = np.asarray(cola.linalg.solve(cola.PSD(Dense(A)), b1, alg)), np.asarray(cola.linalg.solve(cola.PSD(Dense(A)), b2, alg))
+                else:
+                    Iop = cola.linalg.inv(cola.PSD(Dense(A)), alg)
+                    y1, y2 = np.asarray(Iop @ b1), np.asarray(Iop @ b2)
+                badl = []
+                if not np.array_equal(x0, keep):
+                    badl.append("the x0 stored in the CG object was overwritten by a solve")
+                for nm, yy, bb in (("first", y1, b1), ("second", y2, b2)):
+                    rr = float(np.linalg.norm(A @ yy - bb) / np.linalg.norm(bb))
+                    if not rr <= 1e-6:
+                        badl.append("%s solve with the reused CG object: relative residual %.3e" % (nm, rr))
+            except Exception as e:  # noqa
+                badl = ["raised %s: %s" % (type(e).__name__, str(e)[:100])]
+            if badl:
+                mism.append(dict(oracle_fail=True, case=dict(n=n, complex=cplx, stream="reused_algorithm", A=core_json(A.tolist()) if n <= 4 else None), failed_clauses=badl, model_disagrees=False))
     # ---- statistics
     def hist(key, sel=None):
         h = {}
@@ -416,7 +448,7 @@ def run(ctx):
                    max_steps_taken=max([o["steps"] for o in obs if o.get("ok")] + [0]), max_iters_histogram=hist(None, lambda c: ("<=50" if c["max_iters"] <= 50 else "51..128" if c["max_iters"] <= 128 else "129..1000" if c["max_iters"] <= 1000 else ">1000")), near_tie=len(nearset) + margin_ties, skipped_unstable=len(cases) - large - len(items) - margin_ties,
                    krylov_optimum_checked=opt_checked + large_opt, krylov_optimum_relative_to_remaining_error_checked=opt_rel_checked,
                    krylov_optimum_relative_worst=opt_rel_worst, krylov_optimum_worst_distance=opt_worst,
-                   large_oracle_only=large, homogeneity_pairs=homog, inv_entry_point=invpath, inv_with_1d_guess=x0vec, float32_complex64_cases=lowprec,
+                   large_oracle_only=large, homogeneity_pairs=homog, inv_entry_point=invpath, inv_with_1d_guess=x0vec, reused_algorithm_cases=reuse, float32_complex64_cases=lowprec,
                    impl_exceptions=len(obs) - len(ok_obs),
                    stopped_by_tolerance=sum(1 for c, o in zip(cases, obs) if o.get("ok") and o["steps"] < c["max_iters"]),
                    stopped_by_max_iters=sum(1 for c, o in zip(cases, obs) if o.get("ok") and o["steps"] == c["max_iters"]),
